@@ -77,6 +77,7 @@ type Tr struct {
 	frames2   map[*Term]frameInfo
 	knownRtype map[*Term]*Term
 	pathRtype map[*Term]*Term
+	relStructs []*types.Named
 	curBind   []Val // bindings of the closure currently being called by contract
 }
 
@@ -324,6 +325,13 @@ func (tr *Tr) obligeNamed(kind, label string, pos token.Pos, cond *Term, desc st
 
 func (tr *Tr) obligeAt(kind, label string, pos token.Pos, reach, cond *Term, desc string) {
 	fr := tr.fr()
+	if tr.contract != nil && tr.contract.NoSafety {
+		switch kind {
+		case "nil", "bounds", "div", "alloc", "shift", "typeassert", "panic":
+			tr.note("nosafety: run-time panics of this function are outside its contract (partial correctness)")
+			return
+		}
+	}
 	base := fr.prefix + kind
 	var name string
 	if label != "" {
@@ -762,8 +770,16 @@ func (tr *Tr) instr(fr *Frame, in ssa.Instruction) {
 		fr.env[x] = tr.val(x.X)
 	case *ssa.ChangeInterface:
 		fr.env[x] = tr.val(x.X)
+		if launders(x.X.Type(), x.Type()) {
+			tr.havocLog(fr.st)
+			tr.note("device writer converted to " + x.Type().String() + ": writes through it are not tracked (event log havocked)")
+		}
 	case *ssa.MakeInterface:
 		fr.env[x] = tr.makeInterface(fr, x.X.Type(), tr.val(x.X))
+		if launders(x.X.Type(), x.Type()) {
+			tr.havocLog(fr.st)
+			tr.note("device writer converted to " + x.Type().String() + ": writes through it are not tracked (event log havocked)")
+		}
 	case *ssa.Alloc:
 		reg := tr.allocTyped(fr.st, x.Type().Underlying().(*types.Pointer).Elem())
 		fr.env[x] = Val{reg, f.BVi(64, 0)}
@@ -773,11 +789,17 @@ func (tr *Tr) instr(fr *Frame, in ssa.Instruction) {
 		tr.lockCheckStore(fr, x)
 		tr.typeFrameCheck(fr, x.Pos(), rootOf(x.Addr), p[0])
 		tr.storeLeaves(fr.st, shape(x.Val.Type()), p[0], p[1], tr.val(x.Val))
+		if g, ok := x.Addr.(*ssa.Global); ok && isPkgInit(fr.fn) {
+			if gi := tr.P.globalInv(g); gi != nil {
+				tr.establishGlobalInv(fr, x, g, tr.val(x.Val), gi)
+			}
+		}
 	case *ssa.FieldAddr:
 		p := tr.val(x.X)
 		st := x.X.Type().Underlying().(*types.Pointer).Elem().Underlying().(*types.Struct)
 		tr.nilCheck(x.Pos(), p[0], "nil pointer dereference (field)")
 		fr.env[x] = Val{p[0], f.AddC(p[1], int64(fieldOffset(st, x.Field)))}
+		tr.pointerTypeFacts(fr, x.X.Type().Underlying().(*types.Pointer).Elem(), p)
 	case *ssa.Field:
 		v := tr.val(x.X)
 		st := x.X.Type().Underlying().(*types.Struct)
@@ -1219,6 +1241,7 @@ func (tr *Tr) indexAddr(fr *Frame, x *ssa.IndexAddr) Val {
 			cond = f.ULt(i64, s[2])
 		}
 		tr.oblige("bounds", x.Pos(), cond, "index out of range")
+		tr.sliceTypeFacts(u.Elem(), s[0])
 		return Val{s[0], f.Add(s[1], f.Mul(i64, f.BVi(64, n)))}
 	case *types.Pointer:
 		a := u.Elem().Underlying().(*types.Array)
@@ -1385,7 +1408,7 @@ func (tr *Tr) immutableGlobal(g *ssa.Global) (Val, bool) {
 		tr.assume(tr.f.Eq(out[1], tr.f.BVu(64, 0x200000+(strHash(g.String())%0xF00000))), "sentinel error identity "+g.String())
 		tr.trust("package-level error sentinel " + g.String() + " is non-nil and never reassigned")
 	}
-	if gi := tr.P.globalInv(g); gi != nil {
+	if gi := tr.P.globalInv(g); gi != nil && !isPkgInit(tr.frames[0].fn) {
 		tr.assumeGlobalInv(g, out, gi)
 	}
 	return out, true
